@@ -207,13 +207,39 @@ SmoothB(c) ==
            checks |-> <<[k |-> "between", at |-> 0, col |-> 4, col2 |-> 5, slack |-> Dec(1, -9)]>>,
            rows |-> [i \in 1..5 |-> <<(500 - 10 * i) * Km, 500 * Km, HM - 100 * Km, 100 * Km>>]] >>)
 
+(*************************** uniform temperature / composition / velocity of slabs, faults and plumes, with the model's own range *****)
+AllLine == {"subducting plate", "fault"}
+URangeCase == [type : AllLine \cup {"plume"}, op : Ops]
+URangeB(c) ==
+  LET lo == 20  hi == 70                                  \* km: distance from the slab top / fault centre, or depth for the plume
+      tm == IF c.type = "plume" THEN TUniform(555, c.op) @@ ("min depth" :> lo * Km) @@ ("max depth" :> hi * Km)
+            ELSE TUniform(555, c.op) @@ ((IF c.type = "fault" THEN "min distance fault center" ELSE "min distance slab top") :> lo * Km)
+                                    @@ ((IF c.type = "fault" THEN "max distance fault center" ELSE "max distance slab top") :> hi * Km)
+      vm == VUniform(<<Dec(15, -1), -2, Dec(25, -2)>>)
+      doc == WorldOf(<<IF c.type = "plume"
+                       THEN Plume("f", <<<<500 * Km, 500 * Km>>, <<500 * Km, 500 * Km>>>>, <<50 * Km, 300 * Km>>, <<100 * Km, 100 * Km>>, <<0, 0>>, <<0, 0>>, 10 * Km, 400 * Km,
+                                  <<tm>>, <<>>, <<>>, <<vm>>)
+                       ELSE Line(c.type, "f", <<<<500 * Km, -500 * Km>>, <<500 * Km, 1500 * Km>>>>, <<1500 * Km, 500 * Km>>, 0, 1000 * Km,
+                                 <<Segment(400 * Km, <<200 * Km>>, <<0>>, <<90>>)>>, <<tm>>, <<>>, <<>>, <<vm>>)>>)
+      (* rows <<x km, depth km, in the model's range?>> *)
+      pts == IF c.type = "plume" THEN << <<500, 30, TRUE>>, <<530, 60, TRUE>>, <<500, 15, FALSE>>, <<500, 90, FALSE>> >>
+             ELSE IF c.type = "fault" THEN << <<470, 100, TRUE>>, <<540, 100, TRUE>>, <<490, 100, FALSE>>, <<585, 100, FALSE>> >>
+             ELSE << <<470, 100, TRUE>>, <<440, 100, TRUE>>, <<490, 100, FALSE>>, <<415, 100, FALSE>> >>
+  IN B(<<"uniform-range", c>>, <<"uniform-with-range", c.type>>, doc,
+       << [op |-> "qtable", h |-> 1, dim |-> 3, props |-> <<PT, PV>>, rowlet |-> << <<"want", IF TRUE THEN V("$4") ELSE 0>> >>,
+           checks |-> <<[k |-> "tol", at |-> 0, col |-> 4, rel |-> Dec(1, -12), abs |-> 0],
+                        [k |-> "eq", at |-> 1, col |-> 5], [k |-> "eq", at |-> 2, col |-> 6], [k |-> "eq", at |-> 3, col |-> 7]>>,
+           rows |-> [i \in 1..4 |-> <<pts[i][1] * Km, 500 * Km, HM - pts[i][2] * Km, pts[i][2] * Km,
+                                       IF pts[i][3] THEN OpTerm(c.op, 555, pts[i][2] * Km) ELSE Adiabat(pts[i][2] * Km),
+                                       Dec(15, -1), -2, Dec(25, -2)>>]] >>)
+
 VARIABLE case
-Cases ==    ({"smooth"} \X SmoothCase) \cup    ({"linear"} \X LinearCase) \cup ({"linear-varying"} \X LinVarCase) \cup ({"uniform"} \X UniformCase) \cup ({"adiabatic"} \X AdCase) \cup ({"chapman"} \X ChapCase)
+Cases ==    ({"uniform-range"} \X URangeCase) \cup ({"smooth"} \X SmoothCase) \cup    ({"linear"} \X LinearCase) \cup ({"linear-varying"} \X LinVarCase) \cup ({"uniform"} \X UniformCase) \cup ({"adiabatic"} \X AdCase) \cup ({"chapman"} \X ChapCase)
        \cup ({"cooling"} \X CoolCase) \cup ({"gaussian"} \X GaussCase) \cup ({"line-linear"} \X LineLinCase)
 Init == case \in Cases
 Next == UNCHANGED case
 Behaviour == CASE case[1] = "linear" -> LinearB(case[2]) [] case[1] = "linear-varying" -> LinVarB(case[2]) [] case[1] = "uniform" -> UniformB(case[2]) [] case[1] = "adiabatic" -> AdB(case[2])
                [] case[1] = "chapman" -> ChapB(case[2]) [] case[1] = "cooling" -> CoolB(case[2]) [] case[1] = "gaussian" -> GaussB(case[2])
-               [] case[1] = "line-linear" -> LineLinB(case[2]) [] case[1] = "smooth" -> SmoothB(case[2])
+               [] case[1] = "line-linear" -> LineLinB(case[2]) [] case[1] = "smooth" -> SmoothB(case[2]) [] case[1] = "uniform-range" -> URangeB(case[2])
 Emit == PrintT(<<"B", ToJson(Behaviour)>>)
 =============================================================================
